@@ -259,15 +259,43 @@ func (c *Ctx) Eq(a, b *Term) *Term {
 	if a.ID > b.ID {
 		a, b = b, a
 	}
-	// (ite c k1 k2) == k  with constants: fold
-	if b.IsConst() && a.Op == OpIte && a.A[1].IsConst() && a.A[2].IsConst() {
-		return c.Ite(a.A[0], c.Bool(a.A[1].V == b.V), c.Bool(a.A[2].V == b.V))
+	// (ite c x y) == k with a constant k: push the comparison into ite chains over constants
+	// (table look-ups such as hex digits), which usually folds it away
+	if b.IsConst() && a.Op == OpIte && iteOfConsts(a, 0) {
+		return c.eqIteConst(a, b)
 	}
-	if a.IsConst() && b.Op == OpIte && b.A[1].IsConst() && b.A[2].IsConst() {
-		return c.Ite(b.A[0], c.Bool(b.A[1].V == a.V), c.Bool(b.A[2].V == a.V))
+	if a.IsConst() && b.Op == OpIte && iteOfConsts(b, 0) {
+		return c.eqIteConst(b, a)
 	}
 	// concat of same shapes / zext vs const could be split, keep simple.
 	return c.mk(&Term{Op: OpEq, A: []*Term{a, b}})
+}
+
+func iteOfConsts(t *Term, depth int) bool {
+	if t.IsConst() {
+		return true
+	}
+	if t.Op != OpIte || depth > 300 {
+		return false
+	}
+	return iteOfConsts(t.A[1], depth+1) && iteOfConsts(t.A[2], depth+1)
+}
+
+func (c *Ctx) eqIteConst(t, k *Term) *Term {
+	if t.IsConst() {
+		return c.Bool(t.V == k.V)
+	}
+	return c.Ite(t.A[0], c.eqIteConst(t.A[1], k), c.eqIteConst(t.A[2], k))
+}
+
+func (c *Ctx) cmpIteConst(op Op, t, k *Term, swapped bool) *Term {
+	if t.IsConst() {
+		if swapped {
+			return c.Cmp(op, k, t)
+		}
+		return c.Cmp(op, t, k)
+	}
+	return c.Ite(t.A[0], c.cmpIteConst(op, t.A[1], k, swapped), c.cmpIteConst(op, t.A[2], k, swapped))
 }
 
 func (c *Ctx) un(op Op, a *Term) *Term {
@@ -601,6 +629,13 @@ func (c *Ctx) Cmp(op Op, a, b *Term) *Term {
 	}
 	if a == b {
 		return c.Bool(op == OpBvUle || op == OpBvSle)
+	}
+	// comparisons of an ite chain over constants (table look-ups) with a constant fold per leaf
+	if b.IsConst() && a.Op == OpIte && iteOfConsts(a, 0) {
+		return c.cmpIteConst(op, a, b, false)
+	}
+	if a.IsConst() && b.Op == OpIte && iteOfConsts(b, 0) {
+		return c.cmpIteConst(op, b, a, true)
 	}
 	if op == OpBvUlt && b.IsConst() && b.V == 0 {
 		return c.False
